@@ -33,9 +33,35 @@ class DigestSpec:
         return hash((self.alg, self.secret))
 
 
+def _catalogue():
+    """Python objects beyond plain data that YAML (python tags) and pickle can carry."""
+    import collections
+    import datetime
+    import decimal
+    import fractions
+    import uuid
+
+    return {"timedelta": datetime.timedelta(days=1, seconds=5), "decimal": decimal.Decimal("1.50"), "fraction": fractions.Fraction(1, 3),
+            "frozenset": frozenset({1, 2}), "ordereddict": collections.OrderedDict([("b", 1), ("a", 2)]), "uuid": uuid.UUID(int=5),
+            "range": range(3), "date": datetime.date(2020, 1, 2), "datetime": datetime.datetime(2020, 1, 2, 3, 4, 5),
+            "complex": complex(1, 2), "set": {1, 2}, "bytearray": bytearray(b"ab")}
+
+
+PYOBJ = _catalogue()
+
+
+def py_name(v):
+    for name, obj in PYOBJ.items():
+        if type(v) is type(obj) and v == obj:
+            return name
+    return None
+
+
 def enc(v):
     if v is None or isinstance(v, (bool, str)):
         return v
+    if not isinstance(v, (int, float, bytes, list, dict, tuple)) and py_name(v):
+        return {"$py": py_name(v)}
     if isinstance(v, int):
         return v
     if isinstance(v, float):
@@ -75,6 +101,10 @@ def dec(v):
     if isinstance(v, dict):
         if len(v) == 1:
             (k, x), = v.items()
+            if k == "$py":
+                import copy
+
+                return copy.deepcopy(PYOBJ[x])
             if k == "$f":
                 return float(x)
             if k == "$b":
